@@ -304,6 +304,7 @@ class AbsRun:
         # `break` / conditional store made the rest conditional; hooks may read it
         self.unknown: set = set()
         self.alias: dict = {}  # local -> expression it stands for (objects, classes, callables: not forms)
+        self.lists: dict = {}  # local -> python list of Forms (None: outside the domain): `xs = []`, `xs.append(v)`, `for x in xs`
         self.lenient = False  # True: statements whose value is outside the domain are skipped unless a hook wants them
         self.guards: list[str] = []
         self._loop_depth = 0
@@ -388,6 +389,52 @@ class AbsRun:
         self._tick(s)
         if isinstance(s, (ast.Pass, ast.Assert)):
             return
+        if isinstance(s, ast.Expr) and isinstance(s.value, ast.Call) and isinstance(s.value.func, ast.Attribute) and s.value.func.attr == "append" \
+                and isinstance(s.value.func.value, ast.Name) and s.value.func.value.id in self.lists and len(s.value.args) == 1:
+            if self.guards:
+                raise Inconclusive("append under a non-constant condition")
+            try:
+                v = self.ev.ev(s.value.args[0])
+            except Inconclusive:
+                if not self.lenient:
+                    raise
+                v = None
+            self.lists[s.value.func.value.id].append(v)
+            return
+        if isinstance(s, ast.Assign) and len(s.targets) == 1 and isinstance(s.targets[0], ast.Name):
+            if isinstance(s.value, ast.List) and not s.value.elts:
+                self.lists[s.targets[0].id] = []
+                self.env.pop(s.targets[0].id, None)
+                self.alias.pop(s.targets[0].id, None)
+                return
+            if isinstance(s.value, ast.Name) and s.value.id in self.lists:
+                self.lists[s.targets[0].id] = self.lists[s.value.id]
+                self.env.pop(s.targets[0].id, None)
+                self.alias.pop(s.targets[0].id, None)
+                return
+            self.lists.pop(s.targets[0].id, None)
+        if isinstance(s, ast.For) and not s.orelse:
+            it = s.iter
+            enum = isinstance(it, ast.Call) and isinstance(it.func, ast.Name) and it.func.id == "enumerate" and len(it.args) == 1 and not it.keywords
+            src = it.args[0] if enum else it
+            if isinstance(src, ast.Name) and src.id in self.lists:
+                tg = s.target
+                if enum and not (isinstance(tg, ast.Tuple) and len(tg.elts) == 2 and all(isinstance(t, ast.Name) for t in tg.elts)):
+                    raise Inconclusive("enumerate target is not a pair of names")
+                if not enum and not isinstance(tg, ast.Name):
+                    raise Inconclusive("loop target is not a name")
+                for k, v in enumerate(list(self.lists[src.id])):
+                    name = tg.elts[1].id if enum else tg.id  # type: ignore[union-attr]
+                    if v is None:
+                        self.env.pop(name, None)
+                        if not self.lenient:
+                            raise Inconclusive("list element outside the domain")
+                    else:
+                        self.env[name] = v
+                    if enum:
+                        self.env[tg.elts[0].id] = Form.k(k)  # type: ignore[union-attr]
+                    self.block(s.body)
+                return
         if isinstance(s, ast.Expr):
             if isinstance(s.value, ast.Constant):
                 return
